@@ -43,7 +43,7 @@ _WARM = {"done": False}
 
 def scenarios(tier):
     k = 1 if tier == "quick" else 8
-    return [("seq", 200 * k), ("par", 110 * k), ("bounds", 32 * (1 if tier == "quick" else 4))]
+    return [("seq", 400 * k), ("par", 240 * k), ("bounds", 48 * (1 if tier == "quick" else 4))]
 
 
 def gen(rng, scenario, tier):
